@@ -1,4 +1,2248 @@
 package main
 
-// genColApply: placeholder until the translation of this part of the library is written (an empty generated file).
-func genColApply() string { return "" }
+// Translation of the column level of Apply into Gallina (coq/Gen/GenColApply.v, tie T1 for C06 / C07):
+// Column.Apply1 and Column.Apply2 of the five column types with everything they run below them —
+//   internal/icolumn, fcolumn, bcolumn (column_gen.go, the instantiated template): New, Column.Apply1, Column.Apply2;
+//   internal/scolumn/column.go: NewBytes, New, Column.stringAt, stringToPtr, toUpper, the table stringApplyFuncs,
+//     Column.Apply1, Column.Apply2;
+//   internal/ecolumn/column.go: Column.stringPtrAt, toUpper, the table enumApplyFuncs, Column.Apply1, Column.Apply2.
+// coq/Proofs/GenColApplyProofs.v proves every generated definition equal to the hand-written model (Model/Ops.v:
+// col_apply1, col_apply2, scatter, s_to_upper, e_to_upper), coq/Properties/T1ColApply.v registers the theorems
+// T1_colapply_<name>; an edit of one of these Go functions changes the generated text and stops a named theorem.
+//
+// THE SCHEME (anything that does not fit is reported through problem(...); the block then keeps the text of the
+// golden copy, marked FALLBACK, so that the development still builds — the exit status says the tie is broken).
+//
+//	integers    int, uint32 (a row id of index.Int), enumVal (uint8) and qfstrings.Pointer (uint64) -> Z; int is
+//	            exact (lengths, positions, offsets: overflow of int is outside the translation as it is outside
+//	            the model), enumVal(e) is the wrap gap_u8 e = e mod 256, a Pointer is only made and read by the
+//	            functions of internal/strings/pointer.go in their GenFuncs.v translation (gf_strings_NewPointer,
+//	            gf_strings_Pointer_Offset/Len/IsNull).
+//	float64     -> the abstract type F64 (no arithmetic on cells anywhere in the translated functions); its zero
+//	            value is the section variable f64_zero.  The one float64 computation,
+//	                int(float64(A) * (float64(B) / float64(C)))
+//	            (the capacity hint of scolumn.toUpper), is matched as a whole: size_estimate A B C (a variable).
+//	strings     string and []byte -> bytes; *string -> option bytes (nil = None), &s and &x[i] -> Some (the VALUE
+//	            reading of a pointer that the callee only reads: a user function that writes through the pointer
+//	            it is handed is outside the model as well), *p -> gap_deref p (Panic for nil).
+//	slices      []T -> list T.  make([]T, n) -> gap_make zero n, make([]T, 0, c) -> gap_make0 c (Panic for a
+//	            negative size; the capacity is not kept), s[i] -> gap_index, s[a:b] -> gap_slice (Panic outside the
+//	            LENGTH), len(s) -> gap_len s.  A store s[i] = v -> gap_update (Panic outside the range) and
+//	            X = append(X, e) / append(X, e...) -> X ++ .. are accepted only on a variable that the function
+//	            itself made with make: the value reading is then exact (nothing else can reach the array).
+//	maps        map[string]V -> gap_map V, an association list; make(map..) -> [], v, ok := m[k] -> gap_mget2,
+//	            m[k] = v -> gap_mset (only on a map the function made).  A package level map literal whose values
+//	            are translated functions (stringApplyFuncs, enumApplyFuncs) is a Definition of that type.
+//	structs     type Column struct of each package -> Record gap_<pkg>_Column, generated from the declaration.
+//	interface{} -> Inductive gap_dyn: one constructor for every type that a type switch / type assertion of the
+//	            translated functions names or that a translated function hands back as interface{} (discovered),
+//	            gap_dyn_nil, gap_dyn_other for everything else.  A function value func(A) B is  A -> outcome B
+//	            (the user's function may panic; it is a function of its arguments: the model records it as a table).
+//	column.Column -> Inductive gap_anycol: nil, the five translated column types, anything else; s2.(Column) is
+//	            the match on the constructor of the package, x.DataType() is gap_col_DataType x (Panic for nil).
+//	errors      error -> gap_error = option bytes (nil = None); qerrors.New(op, format, args..) -> Some format (the
+//	            arguments are evaluated — a method call on a nil interface among them stays a Panic — and dropped).
+//	vocabulary  qfstrings.ToUpper(&buf, s) -> strings_ToUpper buf s : outcome (result * new buffer) (translated on
+//	            its own by strser.go; the result may alias the buffer: accepted because it is consumed before the next
+//	            call), strings.ToUpper -> go_strings_ToUpper, qfstrings.UnsafeBytesToString -> identity,
+//	            reflect.TypeOf(x) -> total, c.fnName(..) -> total (text-matched).
+//	results     every function answers outcome T (Panic = Go panic), T the tuple of its results.  NO fuel: every
+//	            loop is a range loop over a slice that is evaluated once.
+//	statements  x := e; a, b := f(..); v, ok := m[k]; v, ok := x.(T); x = e; x op= e; s[i] = e; m[k] = e;
+//	            if (with init); range; switch t := x.(type) as the last statement with terminating clauses; return.
+//	range       for i, v := range X { body } -> Definition gap_.._loopN (free variables) := fix loop (l : list T)
+//	            [(v_i : Z)] (assigned outer variables) {struct l}; the body may not return.
+//	rejected    everything else (for with a header, break, continue, goto, defer, closures, switch on values, stores
+//	            into anything the function did not make, field stores, shadowing of a variable that is stored into).
+
+import (
+	"bytes"
+	"flag"
+	"fmt"
+	"go/ast"
+	"go/printer"
+	"go/token"
+	"os"
+	"path/filepath"
+	"regexp"
+	"strconv"
+	"strings"
+)
+
+var gapPkgs = []string{"icolumn", "fcolumn", "bcolumn", "scolumn", "ecolumn"}
+
+// in dependency order; "var X" is a package level map literal of translated functions
+var gapSpecs = map[string][]string{
+	"icolumn": {"New", "Column.Apply1", "Column.Apply2"},
+	"fcolumn": {"New", "Column.Apply1", "Column.Apply2"},
+	"bcolumn": {"New", "Column.Apply1", "Column.Apply2"},
+	"scolumn": {"NewBytes", "New", "Column.stringAt", "stringToPtr", "toUpper", "var stringApplyFuncs", "Column.Apply1", "Column.Apply2"},
+	"ecolumn": {"Column.stringPtrAt", "toUpper", "var enumApplyFuncs", "Column.Apply1", "Column.Apply2"},
+}
+
+// the text of Column.fnName that the vocabulary stands for (a total function)
+const gapFnNameBody = "{\n\treturn fmt.Sprintf(\"%s.%s\", c.DataType(), name)\n}"
+
+const gapPreamble1 = `(* GENERATED by tools/qf2coq (colapply.go) from internal/icolumn, fcolumn, bcolumn (column_gen.go), internal/scolumn
+   and internal/ecolumn (column.go) of tobgu/qframe — do not edit.  Column.Apply1 / Column.Apply2 of the five column
+   types and what they run: the constructors, scolumn stringAt / stringToPtr / toUpper, ecolumn stringPtrAt / toUpper,
+   the built-in tables.  One Record gap_<pkg>_Column per column struct, Inductive gap_dyn for interface{} (a constructor
+   per dynamic type the translated functions name), Inductive gap_anycol for column.Column, one definition
+   gap_<pkg>_<Receiver>_<function> per Go function, one Definition .._loopN (a fix over the ranged list) per loop; the
+   scheme is described at the top of tools/qf2coq/colapply.go.
+   F64 = float64 (abstract), OTHER = a value of an unlisted dynamic type, OTHERC = an unlisted column type.  A user
+   function func(A) B is A -> outcome B.  The section variables are the vocabulary: f64_zero, strings_ToUpper
+   (qfstrings.ToUpper(&buf, s): result and new buffer), go_strings_ToUpper (strings.ToUpper), size_estimate (the
+   float64 capacity hint of scolumn.toUpper).  Every function answers outcome T (Panic = Go panic); there is no fuel:
+   every loop ranges over a list. *)
+From QF Require Import Base.Prelude Gen.GenFuncs.
+Local Open Scope Z_scope.
+
+(* enumVal(e) *)
+Definition gap_u8 (x : Z) : Z := x mod 256.
+(* len(s), make([]T, n), make([]T, 0, c), s[i], s[i] = v, s[a:b], *p *)
+Definition gap_len {T : Type} (s : list T) : Z := Z.of_nat (length s).
+Definition gap_make {T : Type} (zero : T) (n : Z) : outcome (list T) :=
+  if n <? 0 then Panic else Ok (repeat zero (Z.to_nat n)).
+Definition gap_make0 {T : Type} (c : Z) : outcome (list T) :=
+  if c <? 0 then Panic else Ok (@nil T).
+Definition gap_index {T : Type} (s : list T) (i : Z) : outcome T :=
+  if i <? 0 then Panic else idx s (Z.to_nat i).
+Definition gap_update {T : Type} (s : list T) (i : Z) (v : T) : outcome (list T) :=
+  if i <? 0 then Panic else do _ <- idx s (Z.to_nat i); Ok (set_nth s (Z.to_nat i) v).
+Definition gap_slice {T : Type} (s : list T) (a b : Z) : outcome (list T) :=
+  if (a <? 0) || (b <? a) || (Z.of_nat (length s) <? b) then Panic
+  else Ok (firstn (Z.to_nat (b - a)) (skipn (Z.to_nat a) s)).
+Definition gap_deref {T : Type} (p : option T) : outcome T :=
+  match p with Some v => Ok v | None => Panic end.
+(* error values: nil or the format text of qerrors.New *)
+Definition gap_error : Type := option bytes.
+Definition gap_isnil {T : Type} (p : option T) : bool := match p with None => true | Some _ => false end.
+(* map[string]V: v, ok := m[k]; m[k] = v *)
+Definition gap_map (V : Type) : Type := list (bytes * V).
+Fixpoint gap_mget2 {V : Type} (zero : V) (m : gap_map V) (k : bytes) : V * bool :=
+  match m with
+  | [] => (zero, false)
+  | (k', v) :: r => if bytes_eqb k' k then (v, true) else gap_mget2 zero r k
+  end.
+Fixpoint gap_mset {V : Type} (m : gap_map V) (k : bytes) (v : V) : gap_map V :=
+  match m with
+  | [] => [(k, v)]
+  | (k', v') :: r => if bytes_eqb k' k then (k', v) :: r else (k', v') :: gap_mset r k v
+  end.
+
+`
+
+const gapPreamble2 = `Section GenColApply.
+Context {F64 OTHER OTHERC : Type}.
+Variable f64_zero : F64.                                              (* the float64 zero value *)
+Variable strings_ToUpper : bytes -> bytes -> outcome (bytes * bytes). (* qfstrings.ToUpper(&buf, s): the result and the new buffer *)
+Variable go_strings_ToUpper : bytes -> bytes.                         (* strings.ToUpper(s) of the standard library *)
+Variable size_estimate : Z -> Z -> Z -> Z.                            (* int(float64(a) * (float64(b) / float64(c))) *)
+
+`
+
+// ------------------------------------------------------------------ helpers
+
+func gapSrc(fset *token.FileSet, n ast.Node) string {
+	var b bytes.Buffer
+	printer.Fprint(&b, fset, n)
+	return b.String()
+}
+
+func gapIndent(s string) string {
+	lines := strings.Split(strings.TrimRight(s, "\n"), "\n")
+	for i := range lines {
+		lines[i] = "  " + lines[i]
+	}
+	return strings.Join(lines, "\n")
+}
+
+func gapMentions(text, tok string) bool {
+	re := regexp.MustCompile(`(^|[^A-Za-z0-9_'])` + regexp.QuoteMeta(tok) + `($|[^A-Za-z0-9_'])`)
+	return re.MatchString(text)
+}
+
+func gapGoldenBlock(golden, name string) (string, bool) {
+	b := "(* BEGIN " + name + " *)\n"
+	e := "(* END " + name + " *)\n"
+	i := strings.Index(golden, b)
+	if i < 0 {
+		return "", false
+	}
+	j := strings.Index(golden[i:], e)
+	if j < 0 {
+		return "", false
+	}
+	return golden[i+len(b) : i+j], true
+}
+
+func gapCommentSafe(s string) string {
+	s = strings.ReplaceAll(s, "(*", "( *")
+	s = strings.ReplaceAll(s, "*)", "* )")
+	s = strings.ReplaceAll(s, "\"", "'")
+	return s
+}
+
+func gapTuple(parts []string) string {
+	if len(parts) == 0 {
+		return "tt"
+	}
+	if len(parts) == 1 {
+		return parts[0]
+	}
+	return "(" + strings.Join(parts, ", ") + ")"
+}
+
+func gapPat(parts []string) string {
+	if len(parts) == 0 {
+		return "_"
+	}
+	if len(parts) == 1 {
+		return parts[0]
+	}
+	return "(" + strings.Join(parts, ", ") + ")"
+}
+
+func gapTypeTuple(parts []string) string {
+	if len(parts) == 0 {
+		return "unit"
+	}
+	if len(parts) == 1 {
+		return parts[0]
+	}
+	return "(" + strings.Join(parts, " * ") + ")"
+}
+
+// ------------------------------------------------------------------ types
+
+type gapT struct {
+	k   string // int u32 ev ptr const f64 bool string byte pstr slice func dyn err struct anycol map nil bad
+	el  *gapT
+	pkg string
+	ps  []*gapT
+	rs  []*gapT
+}
+
+func gapK(k string) *gapT { return &gapT{k: k} }
+
+var gapBad = gapK("bad")
+
+func (t *gapT) isNum() bool {
+	return t.k == "int" || t.k == "u32" || t.k == "ev" || t.k == "const"
+}
+
+func (t *gapT) same(u *gapT) bool {
+	if t.k != u.k || t.pkg != u.pkg || len(t.ps) != len(u.ps) || len(t.rs) != len(u.rs) {
+		return false
+	}
+	if (t.el == nil) != (u.el == nil) {
+		return false
+	}
+	if t.el != nil && !t.el.same(u.el) {
+		return false
+	}
+	for i := range t.ps {
+		if !t.ps[i].same(u.ps[i]) {
+			return false
+		}
+	}
+	for i := range t.rs {
+		if !t.rs[i].same(u.rs[i]) {
+			return false
+		}
+	}
+	return true
+}
+
+// the Go spelling, for constructor names and messages
+func (t *gapT) name() string {
+	switch t.k {
+	case "int", "bool", "string", "byte":
+		return t.k
+	case "u32":
+		return "uint32"
+	case "ev":
+		return "enumVal"
+	case "ptr":
+		return "Pointer"
+	case "f64":
+		return "float64"
+	case "pstr":
+		return "ptr_string"
+	case "slice":
+		return "slice_" + t.el.name()
+	case "struct":
+		return t.pkg + "_Column"
+	case "func":
+		var ps []string
+		for _, p := range t.ps {
+			ps = append(ps, p.name())
+		}
+		var rs []string
+		for _, r := range t.rs {
+			rs = append(rs, r.name())
+		}
+		return "func_" + strings.Join(ps, "_") + "_to_" + strings.Join(rs, "_")
+	case "map":
+		return "map_" + t.el.name()
+	case "dyn":
+		return "interface"
+	case "anycol":
+		return "column_Column"
+	case "err":
+		return "error"
+	}
+	return t.k
+}
+
+func (t *gapT) usesF64() bool {
+	switch t.k {
+	case "f64", "dyn", "anycol":
+		return true
+	case "slice", "map":
+		return t.el.usesF64()
+	case "struct":
+		return t.pkg == "fcolumn"
+	case "func":
+		for _, p := range append(append([]*gapT{}, t.ps...), t.rs...) {
+			if p.usesF64() {
+				return true
+			}
+		}
+	}
+	return false
+}
+
+func (t *gapT) coq() string {
+	switch t.k {
+	case "int", "u32", "ev", "ptr", "const":
+		return "Z"
+	case "f64":
+		return "F64"
+	case "bool":
+		return "bool"
+	case "string":
+		return "bytes"
+	case "byte":
+		return "N"
+	case "pstr":
+		return "(option bytes)"
+	case "slice":
+		if t.el.k == "byte" {
+			return "bytes"
+		}
+		return "(list " + t.el.coq() + ")"
+	case "map":
+		return "(gap_map " + t.el.coq() + ")"
+	case "dyn":
+		return "(gap_dyn F64 OTHER)"
+	case "anycol":
+		return "(gap_anycol F64 OTHERC)"
+	case "err":
+		return "gap_error"
+	case "struct":
+		if t.pkg == "fcolumn" {
+			return "(gap_fcolumn_Column F64)"
+		}
+		return "gap_" + t.pkg + "_Column"
+	case "func":
+		var parts []string
+		for _, p := range t.ps {
+			parts = append(parts, p.coq())
+		}
+		var rs []string
+		for _, r := range t.rs {
+			rs = append(rs, r.coq())
+		}
+		parts = append(parts, "outcome "+gapTypeTuple(rs))
+		return "(" + strings.Join(parts, " -> ") + ")"
+	}
+	return "unit"
+}
+
+func (t *gapT) zero() (string, bool) {
+	switch t.k {
+	case "int", "u32", "ev", "ptr":
+		return "0", true
+	case "f64":
+		return "f64_zero", true
+	case "bool":
+		return "false", true
+	case "string":
+		return "(@nil N)", true
+	case "byte":
+		return "0%N", true
+	case "pstr", "err":
+		return "None", true
+	case "slice":
+		return "(@nil " + t.el.coq() + ")", true
+	case "map":
+		return "(@nil (bytes * " + t.el.coq() + "))", true
+	case "dyn":
+		return "gap_dyn_nil", true
+	case "anycol":
+		return "gap_col_nil", true
+	case "struct":
+		s, ok := gapStructs[t.pkg]
+		if !ok {
+			return "", false
+		}
+		parts := []string{"gap_mk_" + t.pkg + "_Column"}
+		for _, f := range s.fields {
+			z, ok := f.ty.zero()
+			if !ok {
+				return "", false
+			}
+			parts = append(parts, z)
+		}
+		return "(" + strings.Join(parts, " ") + ")", true
+	case "func":
+		// a nil function value: calling it panics
+		s := "(fun"
+		for range t.ps {
+			s += " _"
+		}
+		return s + " => Panic)", true
+	}
+	return "", false
+}
+
+// ------------------------------------------------------------------ structs
+
+type gapField struct {
+	name string
+	ty   *gapT
+}
+
+type gapStruct struct {
+	pkg    string
+	fields []gapField
+	ok     bool
+}
+
+var gapStructs map[string]*gapStruct
+
+func (s *gapStruct) field(name string) (*gapT, bool) {
+	for _, f := range s.fields {
+		if f.name == name {
+			return f.ty, true
+		}
+	}
+	return nil, false
+}
+
+func (s *gapStruct) record(src string) string {
+	var b strings.Builder
+	rn := "gap_" + s.pkg + "_Column"
+	par := ""
+	if s.pkg == "fcolumn" {
+		par = " (F64 : Type)"
+	}
+	fmt.Fprintf(&b, "(* internal/%s\n%s *)\n", s.pkg, gapCommentSafe(src))
+	fmt.Fprintf(&b, "Record %s%s := gap_mk_%s_Column {\n", rn, par, s.pkg)
+	for i, f := range s.fields {
+		sep := ";"
+		if i == len(s.fields)-1 {
+			sep = " }."
+		}
+		fmt.Fprintf(&b, "  %s_%s : %s%s\n", rn, f.name, f.ty.coq(), sep)
+	}
+	if par != "" {
+		fmt.Fprintf(&b, "Arguments gap_mk_%s_Column {F64}.\n", s.pkg)
+		for _, f := range s.fields {
+			fmt.Fprintf(&b, "Arguments %s_%s {F64}.\n", rn, f.name)
+		}
+	}
+	return b.String()
+}
+
+// the imports of a package by local name (all files must agree)
+func gapImports(p *pkgInfo) map[string]string {
+	m := map[string]string{}
+	for _, f := range p.files {
+		for _, im := range f.Imports {
+			path, _ := strconv.Unquote(im.Path.Value)
+			name := filepath.Base(path)
+			if im.Name != nil {
+				name = im.Name.Name
+			}
+			m[name] = path
+		}
+	}
+	return m
+}
+
+func gapLoadStruct(p *pkgInfo, pkg string) (*gapStruct, string) {
+	s := &gapStruct{pkg: pkg, ok: true}
+	src := ""
+	found := false
+	tr := &gapTr{pkg: pkg, p: p, f: &gapFn{name: "type Column"}}
+	for _, f := range p.files {
+		for _, d := range f.Decls {
+			gd, ok := d.(*ast.GenDecl)
+			if !ok || gd.Tok != token.TYPE {
+				continue
+			}
+			for _, sp := range gd.Specs {
+				ts := sp.(*ast.TypeSpec)
+				if ts.Name.Name != "Column" {
+					continue
+				}
+				st, ok := ts.Type.(*ast.StructType)
+				if !ok {
+					continue
+				}
+				found = true
+				// without the comments inside the declaration
+				var names []string
+				for _, fl := range st.Fields.List {
+					ty := tr.resolve(fl.Type)
+					if len(fl.Names) == 0 {
+						tr.fail(fl, "embedded field")
+					}
+					for _, n := range fl.Names {
+						s.fields = append(s.fields, gapField{n.Name, ty})
+						names = append(names, n.Name+" "+gapSrc(p.fset, fl.Type))
+					}
+				}
+				src = "type Column struct { " + strings.Join(names, "; ") + " }"
+			}
+		}
+	}
+	if !found {
+		problem("column apply translation: type Column struct not found in internal/%s", pkg)
+		s.ok = false
+	}
+	if tr.bad {
+		s.ok = false
+	}
+	return s, src
+}
+
+// ------------------------------------------------------------------ translation state
+
+type gapVar struct {
+	name string
+	coq  string
+	ty   *gapT
+	own  bool // made by the function itself (make): stores are allowed
+}
+
+type gapFn struct {
+	pkg     string
+	name    string // "Column.Apply1" or "New"
+	coq     string
+	fd      *ast.FuncDecl
+	recv    *gapVar
+	params  []gapVar
+	results []*gapT
+	ok      bool
+	text    string
+}
+
+// the translated functions and tables by "pkg.name"
+var gapFuncs map[string]*gapFn
+
+type gapTable struct {
+	coq string
+	ty  *gapT
+}
+
+var gapTables map[string]*gapTable
+
+// the constructors of gap_dyn in order of discovery
+type gapDynCon struct {
+	con  string
+	ty   *gapT
+	note string
+}
+
+var gapDyns []gapDynCon
+
+func gapDynConOf(ty *gapT) string {
+	n := "gap_dyn_" + ty.name()
+	for _, d := range gapDyns {
+		if d.con == n {
+			return n
+		}
+	}
+	gapDyns = append(gapDyns, gapDynCon{n, ty, ty.name()})
+	return n
+}
+
+type gapCtx struct {
+	vars []gapVar
+}
+
+func (c gapCtx) push(v gapVar) gapCtx {
+	n := make([]gapVar, len(c.vars), len(c.vars)+1)
+	copy(n, c.vars)
+	return gapCtx{append(n, v)}
+}
+
+func (c gapCtx) lookup(name string) (gapVar, bool) {
+	for i := len(c.vars) - 1; i >= 0; i-- {
+		if c.vars[i].name == name {
+			return c.vars[i], true
+		}
+	}
+	return gapVar{}, false
+}
+
+type gapTr struct {
+	pkg   string
+	p     *pkgInfo
+	f     *gapFn
+	bad   bool
+	ntmp  int
+	nloop int
+	loops []string
+}
+
+func (t *gapTr) fail(n ast.Node, format string, a ...interface{}) {
+	t.bad = true
+	pos := ""
+	if n != nil && t.p != nil {
+		pos = fmt.Sprintf(" (%s)", t.p.fset.Position(n.Pos()))
+	}
+	problem("column apply translation: internal/%s %s%s: %s", t.pkg, t.f.name, pos, fmt.Sprintf(format, a...))
+}
+
+func (t *gapTr) src(n ast.Node) string { return gapSrc(t.p.fset, n) }
+
+func (t *gapTr) tmp() string {
+	t.ntmp++
+	return fmt.Sprintf("t%d", t.ntmp)
+}
+
+func (t *gapTr) imported(local, path string) bool {
+	return gapImports(t.p)[local] == path
+}
+
+const gapMod = "github.com/tobgu/qframe/"
+
+func (t *gapTr) resolve(e ast.Expr) *gapT {
+	switch x := e.(type) {
+	case *ast.Ident:
+		switch x.Name {
+		case "int":
+			return gapK("int")
+		case "uint32":
+			return gapK("u32")
+		case "float64":
+			return gapK("f64")
+		case "bool":
+			return gapK("bool")
+		case "string":
+			return gapK("string")
+		case "byte":
+			return gapK("byte")
+		case "error":
+			return gapK("err")
+		case "Column":
+			return &gapT{k: "struct", pkg: t.pkg}
+		case "enumVal":
+			if t.pkg == "ecolumn" {
+				return gapK("ev")
+			}
+		}
+	case *ast.SelectorExpr:
+		if id, ok := x.X.(*ast.Ident); ok {
+			switch {
+			case id.Name == "index" && x.Sel.Name == "Int" && t.imported("index", gapMod+"internal/index"):
+				return &gapT{k: "slice", el: gapK("u32")}
+			case id.Name == "qfstrings" && x.Sel.Name == "Pointer" && t.imported("qfstrings", gapMod+"internal/strings"):
+				return gapK("ptr")
+			case id.Name == "column" && x.Sel.Name == "Column" && t.imported("column", gapMod+"internal/column"):
+				return gapK("anycol")
+			case id.Name == "scolumn" && x.Sel.Name == "Column" && t.imported("scolumn", gapMod+"internal/scolumn"):
+				return &gapT{k: "struct", pkg: "scolumn"}
+			}
+		}
+	case *ast.InterfaceType:
+		if x.Methods == nil || len(x.Methods.List) == 0 {
+			return gapK("dyn")
+		}
+	case *ast.StarExpr:
+		if id, ok := x.X.(*ast.Ident); ok && id.Name == "string" {
+			return gapK("pstr")
+		}
+	case *ast.ArrayType:
+		if x.Len == nil {
+			el := t.resolve(x.Elt)
+			if el.k == "bad" {
+				return gapBad
+			}
+			return &gapT{k: "slice", el: el}
+		}
+	case *ast.MapType:
+		if id, ok := x.Key.(*ast.Ident); ok && id.Name == "string" {
+			el := t.resolve(x.Value)
+			if el.k == "bad" {
+				return gapBad
+			}
+			return &gapT{k: "map", el: el}
+		}
+	case *ast.FuncType:
+		ft := &gapT{k: "func"}
+		for _, fl := range x.Params.List {
+			ty := t.resolve(fl.Type)
+			n := len(fl.Names)
+			if n == 0 {
+				n = 1
+			}
+			for i := 0; i < n; i++ {
+				ft.ps = append(ft.ps, ty)
+			}
+		}
+		if x.Results != nil {
+			for _, fl := range x.Results.List {
+				ty := t.resolve(fl.Type)
+				n := len(fl.Names)
+				if n == 0 {
+					n = 1
+				}
+				for i := 0; i < n; i++ {
+					ft.rs = append(ft.rs, ty)
+				}
+			}
+		}
+		for _, q := range append(append([]*gapT{}, ft.ps...), ft.rs...) {
+			if q.k == "bad" {
+				return gapBad
+			}
+		}
+		return ft
+	}
+	t.fail(e, "type %s is outside the translation", t.src(e))
+	return gapBad
+}
+
+// text of type `have` where a value of type `want` is expected (Go's implicit conversions)
+func (t *gapTr) coerce(n ast.Node, text string, have, want *gapT) string {
+	if have.k == "bad" || want.k == "bad" {
+		return text
+	}
+	if have.same(want) {
+		return text
+	}
+	if have.k == "const" && want.isNum() {
+		return text
+	}
+	if have.k == "nil" {
+		switch want.k {
+		case "pstr", "err", "slice", "map", "dyn", "anycol", "func":
+			z, _ := want.zero()
+			return z
+		}
+	}
+	if want.k == "dyn" {
+		switch have.k {
+		case "slice", "struct", "func", "string", "int", "f64", "bool", "pstr":
+			return "(" + gapDynConOf(have) + " " + text + ")"
+		}
+	}
+	if want.k == "anycol" && have.k == "struct" {
+		return "(gap_col_" + have.pkg + " " + text + ")"
+	}
+	// a []byte where a string is expected and back: the same list
+	if (have.k == "string" && want.k == "slice" && want.el.k == "byte") || (want.k == "string" && have.k == "slice" && have.el.k == "byte") {
+		return text
+	}
+	t.fail(n, "a value of type %s where %s is expected", have.name(), want.name())
+	return text
+}
+
+// ------------------------------------------------------------------ expressions
+
+func gapParen(s string) string {
+	if strings.ContainsAny(s, " ") && !strings.HasPrefix(s, "(") {
+		return "(" + s + ")"
+	}
+	return s
+}
+
+func (t *gapTr) bind(pre *[]string, rhs string) string {
+	v := t.tmp()
+	*pre = append(*pre, fmt.Sprintf("do %s <- %s;", v, rhs))
+	return v
+}
+
+// the capacity hint int(float64(A) * (float64(B) / float64(C)))
+func (t *gapTr) sizeEstimate(x *ast.CallExpr, c gapCtx, pre *[]string) (string, bool) {
+	conv := func(e ast.Expr, name string) (ast.Expr, bool) {
+		ce, ok := e.(*ast.CallExpr)
+		if !ok || len(ce.Args) != 1 {
+			return nil, false
+		}
+		id, ok := ce.Fun.(*ast.Ident)
+		if !ok || id.Name != name {
+			return nil, false
+		}
+		return ce.Args[0], true
+	}
+	inner, ok := conv(x, "int")
+	if !ok {
+		return "", false
+	}
+	mul, ok := inner.(*ast.BinaryExpr)
+	if !ok || mul.Op != token.MUL {
+		return "", false
+	}
+	a, ok := conv(mul.X, "float64")
+	if !ok {
+		return "", false
+	}
+	par, ok := mul.Y.(*ast.ParenExpr)
+	if !ok {
+		return "", false
+	}
+	quo, ok := par.X.(*ast.BinaryExpr)
+	if !ok || quo.Op != token.QUO {
+		return "", false
+	}
+	b, ok1 := conv(quo.X, "float64")
+	cc, ok2 := conv(quo.Y, "float64")
+	if !ok1 || !ok2 {
+		return "", false
+	}
+	var parts []string
+	for _, e := range []ast.Expr{a, b, cc} {
+		s, ty := t.expr(e, c, pre)
+		if ty.k != "int" && ty.k != "bad" {
+			t.fail(e, "the capacity hint is computed from %s, not from an int", ty.name())
+		}
+		parts = append(parts, gapParen(s))
+	}
+	return "(size_estimate " + strings.Join(parts, " ") + ")", true
+}
+
+func (t *gapTr) expr(e ast.Expr, c gapCtx, pre *[]string) (string, *gapT) {
+	switch x := e.(type) {
+	case *ast.ParenExpr:
+		return t.expr(x.X, c, pre)
+	case *ast.Ident:
+		switch x.Name {
+		case "nil":
+			return "None", gapK("nil")
+		case "true", "false":
+			return x.Name, gapK("bool")
+		}
+		if v, ok := c.lookup(x.Name); ok {
+			return v.coq, v.ty
+		}
+		if tb, ok := gapTables[t.pkg+"."+x.Name]; ok {
+			return tb.coq, tb.ty
+		}
+		t.fail(e, "identifier %s is outside the translation", x.Name)
+		return "tt", gapBad
+	case *ast.BasicLit:
+		switch x.Kind {
+		case token.INT:
+			v, err := strconv.ParseInt(x.Value, 0, 64)
+			if err != nil {
+				t.fail(e, "literal %s", x.Value)
+				return "0", gapBad
+			}
+			return fmt.Sprintf("%d", v), gapK("const")
+		case token.STRING:
+			s, err := strconv.Unquote(x.Value)
+			if err != nil {
+				t.fail(e, "literal %s", x.Value)
+				return "[]", gapBad
+			}
+			return coqBytes(s), gapK("string")
+		}
+	case *ast.SelectorExpr:
+		s, ty := t.expr(x.X, c, pre)
+		if ty.k == "struct" {
+			st, ok := gapStructs[ty.pkg]
+			if ok {
+				if ft, ok := st.field(x.Sel.Name); ok {
+					return fmt.Sprintf("(gap_%s_Column_%s %s)", ty.pkg, x.Sel.Name, s), ft
+				}
+			}
+		}
+		if ty.k != "bad" {
+			t.fail(e, "selector %s", t.src(e))
+		}
+		return "tt", gapBad
+	case *ast.IndexExpr:
+		s, ty := t.expr(x.X, c, pre)
+		i, ity := t.expr(x.Index, c, pre)
+		if ty.k == "bad" || ity.k == "bad" {
+			return "tt", gapBad
+		}
+		if ty.k != "slice" || !ity.isNum() {
+			t.fail(e, "index expression %s", t.src(e))
+			return "tt", gapBad
+		}
+		return t.bind(pre, fmt.Sprintf("gap_index %s %s", gapParen(s), gapParen(i))), ty.el
+	case *ast.SliceExpr:
+		if x.Slice3 || x.Low == nil || x.High == nil {
+			t.fail(e, "slice expression %s", t.src(e))
+			return "tt", gapBad
+		}
+		s, ty := t.expr(x.X, c, pre)
+		a, aty := t.expr(x.Low, c, pre)
+		b, bty := t.expr(x.High, c, pre)
+		if ty.k == "bad" || aty.k == "bad" || bty.k == "bad" {
+			return "tt", gapBad
+		}
+		if ty.k != "slice" || !aty.isNum() || !bty.isNum() {
+			t.fail(e, "slice expression %s", t.src(e))
+			return "tt", gapBad
+		}
+		return t.bind(pre, fmt.Sprintf("gap_slice %s %s %s", gapParen(s), gapParen(a), gapParen(b))), ty
+	case *ast.StarExpr:
+		s, ty := t.expr(x.X, c, pre)
+		if ty.k == "bad" {
+			return "tt", gapBad
+		}
+		if ty.k != "pstr" {
+			t.fail(e, "dereference of %s", ty.name())
+			return "tt", gapBad
+		}
+		return t.bind(pre, "gap_deref "+gapParen(s)), gapK("string")
+	case *ast.UnaryExpr:
+		switch x.Op {
+		case token.NOT:
+			s, ty := t.expr(x.X, c, pre)
+			if ty.k != "bool" && ty.k != "bad" {
+				t.fail(e, "! on %s", ty.name())
+			}
+			return "(negb " + gapParen(s) + ")", gapK("bool")
+		case token.AND:
+			// &s for a string variable, &x[i] for an element of a []string: the value reading
+			s, ty := t.expr(x.X, c, pre)
+			if ty.k == "bad" {
+				return "None", gapBad
+			}
+			if ty.k != "string" {
+				t.fail(e, "address of a %s", ty.name())
+				return "None", gapBad
+			}
+			return "(Some " + gapParen(s) + ")", gapK("pstr")
+		}
+	case *ast.BinaryExpr:
+		return t.binary(x, c, pre)
+	case *ast.CompositeLit:
+		return t.composite(x, c, pre)
+	case *ast.CallExpr:
+		texts, tys := t.call(x, c, pre)
+		if len(texts) != 1 {
+			if len(tys) != 0 && tys[0].k != "bad" {
+				t.fail(e, "a call with %d results where one value is expected", len(texts))
+			}
+			return "tt", gapBad
+		}
+		return texts[0], tys[0]
+	}
+	t.fail(e, "expression %s is outside the translation", t.src(e))
+	return "tt", gapBad
+}
+
+func (t *gapTr) binary(x *ast.BinaryExpr, c gapCtx, pre *[]string) (string, *gapT) {
+	a, aty := t.expr(x.X, c, pre)
+	var pre2 []string
+	b, bty := t.expr(x.Y, c, &pre2)
+	if aty.k == "bad" || bty.k == "bad" {
+		return "tt", gapBad
+	}
+	if (x.Op == token.LAND || x.Op == token.LOR) && len(pre2) > 0 {
+		t.fail(x, "the right operand of %s can panic", x.Op)
+		return "false", gapBad
+	}
+	*pre = append(*pre, pre2...)
+	num := aty.isNum() && bty.isNum() && (aty.k == bty.k || aty.k == "const" || bty.k == "const")
+	rty := aty
+	if aty.k == "const" {
+		rty = bty
+	}
+	switch x.Op {
+	case token.ADD:
+		if num {
+			return fmt.Sprintf("(%s + %s)", a, b), rty
+		}
+	case token.SUB:
+		if num {
+			return fmt.Sprintf("(%s - %s)", a, b), rty
+		}
+	case token.LAND:
+		if aty.k == "bool" && bty.k == "bool" {
+			return fmt.Sprintf("(%s && %s)", a, b), aty
+		}
+	case token.LOR:
+		if aty.k == "bool" && bty.k == "bool" {
+			return fmt.Sprintf("(%s || %s)", a, b), aty
+		}
+	case token.LSS:
+		if num {
+			return fmt.Sprintf("(%s <? %s)", a, b), gapK("bool")
+		}
+	case token.GTR:
+		if num {
+			return fmt.Sprintf("(%s <? %s)", b, a), gapK("bool")
+		}
+	case token.EQL, token.NEQ:
+		s := ""
+		switch {
+		case num:
+			s = fmt.Sprintf("(%s =? %s)", a, b)
+		case aty.k == "string" && bty.k == "string":
+			s = fmt.Sprintf("(bytes_eqb %s %s)", a, b)
+		case (aty.k == "pstr" || aty.k == "err") && bty.k == "nil":
+			s = fmt.Sprintf("(gap_isnil %s)", a)
+		case aty.k == "bool" && bty.k == "bool":
+			s = fmt.Sprintf("(Bool.eqb %s %s)", a, b)
+		}
+		if s != "" {
+			if x.Op == token.NEQ {
+				s = "(negb " + s + ")"
+			}
+			return s, gapK("bool")
+		}
+	}
+	t.fail(x, "operator %s on %s and %s", x.Op, aty.name(), bty.name())
+	return "tt", gapBad
+}
+
+func (t *gapTr) composite(x *ast.CompositeLit, c gapCtx, pre *[]string) (string, *gapT) {
+	ty := t.resolve(x.Type)
+	if ty.k == "bad" {
+		return "tt", gapBad
+	}
+	if ty.k != "struct" {
+		t.fail(x, "composite literal of type %s", ty.name())
+		return "tt", gapBad
+	}
+	st, ok := gapStructs[ty.pkg]
+	if !ok || ty.pkg != t.pkg {
+		t.fail(x, "composite literal of a struct of another package")
+		return "tt", gapBad
+	}
+	vals := map[string]string{}
+	for _, el := range x.Elts {
+		kv, ok := el.(*ast.KeyValueExpr)
+		if !ok {
+			t.fail(el, "positional composite literal")
+			return "tt", gapBad
+		}
+		id, ok := kv.Key.(*ast.Ident)
+		if !ok {
+			t.fail(el, "composite literal key")
+			return "tt", gapBad
+		}
+		ft, ok := st.field(id.Name)
+		if !ok {
+			t.fail(el, "unknown field %s", id.Name)
+			return "tt", gapBad
+		}
+		s, vty := t.expr(kv.Value, c, pre)
+		vals[id.Name] = gapParen(t.coerce(kv.Value, s, vty, ft))
+	}
+	parts := []string{"gap_mk_" + ty.pkg + "_Column"}
+	for _, f := range st.fields {
+		if v, ok := vals[f.name]; ok {
+			parts = append(parts, v)
+		} else {
+			z, _ := f.ty.zero()
+			parts = append(parts, z)
+		}
+	}
+	return "(" + strings.Join(parts, " ") + ")", ty
+}
+
+// ------------------------------------------------------------------ calls
+
+// arguments for parameter types ps; a single call with several results spreads over the parameters
+func (t *gapTr) args(n ast.Node, as []ast.Expr, ps []*gapT, c gapCtx, pre *[]string) []string {
+	if len(as) == 1 && len(ps) > 1 {
+		if ce, ok := as[0].(*ast.CallExpr); ok {
+			texts, tys := t.call(ce, c, pre)
+			if len(texts) != len(ps) {
+				if len(tys) == 0 || tys[0].k != "bad" {
+					t.fail(n, "%d values for %d parameters", len(texts), len(ps))
+				}
+				return make([]string, len(ps))
+			}
+			var out []string
+			for i := range texts {
+				out = append(out, gapParen(t.coerce(as[0], texts[i], tys[i], ps[i])))
+			}
+			return out
+		}
+	}
+	if len(as) != len(ps) {
+		t.fail(n, "%d arguments for %d parameters", len(as), len(ps))
+		return make([]string, len(ps))
+	}
+	var out []string
+	for i, a := range as {
+		s, ty := t.expr(a, c, pre)
+		out = append(out, gapParen(t.coerce(a, s, ty, ps[i])))
+	}
+	return out
+}
+
+// a call of a translated function g: one temporary, or one per result
+func (t *gapTr) callFn(n ast.Node, g *gapFn, recv string, as []ast.Expr, c gapCtx, pre *[]string) ([]string, []*gapT) {
+	if g == nil || (!g.ok && g.text == "") {
+		t.fail(n, "call of a function that is not translated")
+		return []string{"tt"}, []*gapT{gapBad}
+	}
+	var ps []*gapT
+	for _, p := range g.params {
+		ps = append(ps, p.ty)
+	}
+	parts := []string{g.coq}
+	if recv != "" {
+		parts = append(parts, gapParen(recv))
+	}
+	parts = append(parts, t.args(n, as, ps, c, pre)...)
+	if len(g.results) == 1 {
+		return []string{t.bind(pre, strings.Join(parts, " "))}, g.results
+	}
+	var names []string
+	for range g.results {
+		names = append(names, t.tmp())
+	}
+	*pre = append(*pre, fmt.Sprintf("do %s <- %s;", gapPat(names), strings.Join(parts, " ")))
+	return names, g.results
+}
+
+func (t *gapTr) call(x *ast.CallExpr, c gapCtx, pre *[]string) ([]string, []*gapT) {
+	one := func(s string, ty *gapT) ([]string, []*gapT) { return []string{s}, []*gapT{ty} }
+	bad := func() ([]string, []*gapT) { return []string{"tt"}, []*gapT{gapBad} }
+	if x.Ellipsis != token.NoPos {
+		t.fail(x, "call with ... outside append")
+		return bad()
+	}
+	switch f := x.Fun.(type) {
+	case *ast.Ident:
+		if v, ok := c.lookup(f.Name); ok {
+			// a function value
+			if v.ty.k != "func" {
+				t.fail(x, "call of %s, which is a %s", f.Name, v.ty.name())
+				return bad()
+			}
+			parts := append([]string{v.coq}, t.args(x, x.Args, v.ty.ps, c, pre)...)
+			if len(v.ty.rs) != 1 {
+				t.fail(x, "a function value with %d results", len(v.ty.rs))
+				return bad()
+			}
+			return one(t.bind(pre, strings.Join(parts, " ")), v.ty.rs[0])
+		}
+		switch f.Name {
+		case "len":
+			if len(x.Args) == 1 {
+				s, ty := t.expr(x.Args[0], c, pre)
+				if ty.k == "slice" || ty.k == "string" {
+					return one("(gap_len "+gapParen(s)+")", gapK("int"))
+				}
+				if ty.k != "bad" {
+					t.fail(x, "len of a %s", ty.name())
+				}
+				return bad()
+			}
+		case "make":
+			if len(x.Args) >= 1 {
+				ty := t.resolve(x.Args[0])
+				if ty.k == "bad" {
+					return bad()
+				}
+				if ty.k == "map" && len(x.Args) <= 2 {
+					if len(x.Args) == 2 {
+						_, hty := t.expr(x.Args[1], c, pre)
+						if !hty.isNum() && hty.k != "bad" {
+							t.fail(x, "size hint of type %s", hty.name())
+						}
+					}
+					z, _ := ty.zero()
+					return one(z, ty)
+				}
+				if ty.k == "slice" && len(x.Args) == 2 {
+					n, nty := t.expr(x.Args[1], c, pre)
+					z, ok := ty.el.zero()
+					if !ok || (!nty.isNum() && nty.k != "bad") {
+						t.fail(x, "make(%s)", t.src(x.Args[0]))
+						return bad()
+					}
+					return one(t.bind(pre, fmt.Sprintf("gap_make %s %s", z, gapParen(n))), ty)
+				}
+				if ty.k == "slice" && len(x.Args) == 3 {
+					if lit, ok := x.Args[1].(*ast.BasicLit); ok && lit.Value == "0" {
+						n, nty := t.expr(x.Args[2], c, pre)
+						if !nty.isNum() && nty.k != "bad" {
+							t.fail(x, "capacity of type %s", nty.name())
+							return bad()
+						}
+						return one(t.bind(pre, fmt.Sprintf("gap_make0 (T := %s) %s", ty.el.coq(), gapParen(n))), ty)
+					}
+				}
+			}
+			t.fail(x, "this form of make")
+			return bad()
+		case "int":
+			if s, ok := t.sizeEstimate(x, c, pre); ok {
+				return one(s, gapK("int"))
+			}
+		case "enumVal":
+			if t.pkg == "ecolumn" && len(x.Args) == 1 {
+				s, ty := t.expr(x.Args[0], c, pre)
+				if ty.isNum() {
+					return one("(gap_u8 "+gapParen(s)+")", gapK("ev"))
+				}
+			}
+		}
+		if g, ok := gapFuncs[t.pkg+"."+f.Name]; ok {
+			return t.callFn(x, g, "", x.Args, c, pre)
+		}
+		t.fail(x, "call of %s is outside the translation", f.Name)
+		return bad()
+	case *ast.SelectorExpr:
+		if id, ok := f.X.(*ast.Ident); ok {
+			if _, isVar := c.lookup(id.Name); !isVar {
+				path := gapImports(t.p)[id.Name]
+				switch {
+				case path == gapMod+"internal/strings" && f.Sel.Name == "NewPointer":
+					as := t.args(x, x.Args, []*gapT{gapK("int"), gapK("int"), gapK("bool")}, c, pre)
+					return one("(gf_strings_NewPointer "+strings.Join(as, " ")+")", gapK("ptr"))
+				case path == gapMod+"internal/strings" && f.Sel.Name == "UnsafeBytesToString" && len(x.Args) == 1:
+					s, ty := t.expr(x.Args[0], c, pre)
+					if ty.k == "slice" && ty.el.k == "byte" {
+						return one(s, gapK("string"))
+					}
+				case path == "strings" && f.Sel.Name == "ToUpper" && len(x.Args) == 1:
+					s, ty := t.expr(x.Args[0], c, pre)
+					if ty.k == "string" {
+						return one("(go_strings_ToUpper "+gapParen(s)+")", gapK("string"))
+					}
+				case path == gapMod+"internal/scolumn" && t.pkg != "scolumn":
+					if g, ok := gapFuncs["scolumn."+f.Sel.Name]; ok && g.recv == nil {
+						return t.callFn(x, g, "", x.Args, c, pre)
+					}
+				case path == gapMod+"qerrors" && f.Sel.Name == "New" && len(x.Args) >= 2:
+					return t.qerrorsNew(x, c, pre)
+				}
+				t.fail(x, "call of %s.%s is outside the translation", id.Name, f.Sel.Name)
+				return bad()
+			}
+		}
+		// a method call
+		s, ty := t.expr(f.X, c, pre)
+		switch ty.k {
+		case "bad":
+			return bad()
+		case "ptr":
+			if len(x.Args) == 0 {
+				switch f.Sel.Name {
+				case "IsNull":
+					return one("(gf_strings_Pointer_IsNull "+gapParen(s)+")", gapK("bool"))
+				case "Offset":
+					return one("(gf_strings_Pointer_Offset "+gapParen(s)+")", gapK("int"))
+				case "Len":
+					return one("(gf_strings_Pointer_Len "+gapParen(s)+")", gapK("int"))
+				}
+			}
+		case "ev":
+			if len(x.Args) == 0 && f.Sel.Name == "isNull" {
+				return one("(gf_ecolumn_enumVal_isNull "+gapParen(s)+")", gapK("bool"))
+			}
+		case "anycol":
+			if len(x.Args) == 0 && f.Sel.Name == "DataType" {
+				return one(t.bind(pre, "gap_col_DataType "+gapParen(s)), gapK("opaque"))
+			}
+		case "struct":
+			if g, ok := gapFuncs[ty.pkg+".Column."+f.Sel.Name]; ok {
+				return t.callFn(x, g, s, x.Args, c, pre)
+			}
+		}
+		t.fail(x, "method call %s is outside the translation", t.src(x.Fun))
+		return bad()
+	}
+	t.fail(x, "call %s is outside the translation", t.src(x))
+	return bad()
+}
+
+// qerrors.New(op, format, args...): Some format; op and the arguments are evaluated and dropped
+func (t *gapTr) qerrorsNew(x *ast.CallExpr, c gapCtx, pre *[]string) ([]string, []*gapT) {
+	for i, a := range x.Args {
+		if i == 1 {
+			continue
+		}
+		if ce, ok := a.(*ast.CallExpr); ok {
+			if se, ok := ce.Fun.(*ast.SelectorExpr); ok {
+				if id, ok := se.X.(*ast.Ident); ok {
+					// c.fnName("..") on the receiver: total (its text is matched by the generator)
+					if v, isVar := c.lookup(id.Name); isVar && v.ty.k == "struct" && se.Sel.Name == "fnName" && len(ce.Args) == 1 {
+						if _, isLit := ce.Args[0].(*ast.BasicLit); isLit {
+							gapFnNameUsed[t.pkg] = true
+							continue
+						}
+					}
+					// reflect.TypeOf(x): total
+					if _, isVar := c.lookup(id.Name); !isVar && gapImports(t.p)[id.Name] == "reflect" && se.Sel.Name == "TypeOf" && len(ce.Args) == 1 {
+						t.expr(ce.Args[0], c, pre)
+						continue
+					}
+				}
+			}
+		}
+		t.expr(a, c, pre)
+	}
+	lit, ok := x.Args[1].(*ast.BasicLit)
+	if !ok || lit.Kind != token.STRING {
+		t.fail(x, "the format of qerrors.New is not a string literal")
+		return []string{"None"}, []*gapT{gapBad}
+	}
+	s, _ := strconv.Unquote(lit.Value)
+	return []string{"(Some " + coqBytes(s) + ")"}, []*gapT{gapK("err")}
+}
+
+var gapFnNameUsed = map[string]bool{}
+
+// ------------------------------------------------------------------ statements
+
+func gapRoot(e ast.Expr) string {
+	switch x := e.(type) {
+	case *ast.Ident:
+		return x.Name
+	case *ast.IndexExpr:
+		return gapRoot(x.X)
+	case *ast.SelectorExpr:
+		return gapRoot(x.X)
+	case *ast.ParenExpr:
+		return gapRoot(x.X)
+	case *ast.StarExpr:
+		return gapRoot(x.X)
+	}
+	return ""
+}
+
+// the names stored into and the names declared anywhere inside the nodes
+func gapAssigned(nodes ...ast.Node) (assigned, declared map[string]bool) {
+	assigned, declared = map[string]bool{}, map[string]bool{}
+	for _, n := range nodes {
+		if n == nil {
+			continue
+		}
+		ast.Inspect(n, func(m ast.Node) bool {
+			switch x := m.(type) {
+			case *ast.AssignStmt:
+				for _, l := range x.Lhs {
+					if id, ok := l.(*ast.Ident); ok && x.Tok == token.DEFINE {
+						declared[id.Name] = true
+					} else if r := gapRoot(l); r != "" {
+						assigned[r] = true
+					}
+				}
+			case *ast.IncDecStmt:
+				if r := gapRoot(x.X); r != "" {
+					assigned[r] = true
+				}
+			case *ast.RangeStmt:
+				if x.Tok == token.DEFINE {
+					for _, e := range []ast.Expr{x.Key, x.Value} {
+						if id, ok := e.(*ast.Ident); ok {
+							declared[id.Name] = true
+						}
+					}
+				} else {
+					for _, e := range []ast.Expr{x.Key, x.Value} {
+						if e != nil {
+							assigned[gapRoot(e)] = true
+						}
+					}
+				}
+			case *ast.UnaryExpr:
+				// &x handed to a callee that stores through it (qfstrings.ToUpper(&buf, ..))
+				if x.Op == token.AND {
+					if id, ok := x.X.(*ast.Ident); ok {
+						assigned[id.Name] = true
+					}
+				}
+			case *ast.DeclStmt:
+				if gd, ok := x.Decl.(*ast.GenDecl); ok {
+					for _, sp := range gd.Specs {
+						if vs, ok := sp.(*ast.ValueSpec); ok {
+							for _, id := range vs.Names {
+								declared[id.Name] = true
+							}
+						}
+					}
+				}
+			}
+			return true
+		})
+	}
+	return
+}
+
+// the variables of the context that the nodes store into, in context order
+func (t *gapTr) stateVars(n ast.Node, c gapCtx, nodes ...ast.Node) []gapVar {
+	assigned, declared := gapAssigned(nodes...)
+	var out []gapVar
+	seen := map[string]bool{}
+	for i := len(c.vars) - 1; i >= 0; i-- {
+		v := c.vars[i]
+		if seen[v.name] {
+			continue
+		}
+		seen[v.name] = true
+		if assigned[v.name] {
+			if declared[v.name] {
+				t.fail(n, "variable %s is stored into and also declared again inside the statement", v.name)
+			}
+			out = append([]gapVar{v}, out...)
+		}
+	}
+	return out
+}
+
+func gapVarNames(vs []gapVar) []string {
+	var out []string
+	for _, v := range vs {
+		out = append(out, v.coq)
+	}
+	return out
+}
+
+func gapVarTypes(vs []gapVar) []string {
+	var out []string
+	for _, v := range vs {
+		out = append(out, v.ty.coq())
+	}
+	return out
+}
+
+func (t *gapTr) declare(c *gapCtx, name string, ty *gapT, own bool) string {
+	if name == "_" {
+		return "_"
+	}
+	v := gapVar{name: name, coq: "v_" + name, ty: ty, own: own}
+	*c = c.push(v)
+	return v.coq
+}
+
+// x := e / x = e on a plain variable
+func (t *gapTr) setVar(n ast.Node, tok token.Token, lhs ast.Expr, text string, ty *gapT, own bool, c *gapCtx) string {
+	id, ok := lhs.(*ast.Ident)
+	if !ok {
+		t.fail(n, "assignment to %s", t.src(lhs))
+		return "_"
+	}
+	if tok == token.DEFINE || id.Name == "_" {
+		if ty.k == "const" {
+			ty = gapK("int")
+		}
+		if ty.k == "nil" || ty.k == "opaque" {
+			t.fail(n, "a variable of this type")
+		}
+		return t.declare(c, id.Name, ty, own)
+	}
+	v, ok := c.lookup(id.Name)
+	if !ok {
+		t.fail(n, "assignment to %s, which is not a local variable", id.Name)
+		return "_"
+	}
+	if ty.k != "bad" && !(ty.same(v.ty) || (ty.k == "const" && v.ty.isNum())) {
+		t.fail(n, "assignment of a %s to %s of type %s", ty.name(), id.Name, v.ty.name())
+	}
+	return v.coq
+}
+
+func (t *gapTr) isCallTo(e ast.Expr, pkgPath, name string) (*ast.CallExpr, bool) {
+	ce, ok := e.(*ast.CallExpr)
+	if !ok {
+		return nil, false
+	}
+	if pkgPath == "" {
+		id, ok := ce.Fun.(*ast.Ident)
+		return ce, ok && id.Name == name
+	}
+	se, ok := ce.Fun.(*ast.SelectorExpr)
+	if !ok || se.Sel.Name != name {
+		return nil, false
+	}
+	id, ok := se.X.(*ast.Ident)
+	return ce, ok && gapImports(t.p)[id.Name] == pkgPath
+}
+
+func (t *gapTr) simple(st ast.Stmt, c *gapCtx) []string {
+	var pre []string
+	switch x := st.(type) {
+	case *ast.AssignStmt:
+		if x.Tok != token.DEFINE && x.Tok != token.ASSIGN && x.Tok != token.ADD_ASSIGN {
+			break
+		}
+		if x.Tok == token.ADD_ASSIGN {
+			if len(x.Lhs) != 1 || len(x.Rhs) != 1 {
+				break
+			}
+			a, aty := t.expr(x.Lhs[0], *c, &pre)
+			b, bty := t.expr(x.Rhs[0], *c, &pre)
+			if !(aty.isNum() && (bty.k == aty.k || bty.k == "const")) && aty.k != "bad" && bty.k != "bad" {
+				t.fail(st, "+= on %s and %s", aty.name(), bty.name())
+			}
+			name := t.setVar(st, token.ASSIGN, x.Lhs[0], "", aty, false, c)
+			return append(pre, fmt.Sprintf("let %s := (%s + %s) in", name, a, b))
+		}
+		if len(x.Lhs) == 2 && len(x.Rhs) == 1 {
+			switch r := x.Rhs[0].(type) {
+			case *ast.TypeAssertExpr:
+				if r.Type == nil {
+					break
+				}
+				s, sty := t.expr(r.X, *c, &pre)
+				want := t.resolve(r.Type)
+				if sty.k == "bad" || want.k == "bad" {
+					return pre
+				}
+				z, zok := want.zero()
+				con := ""
+				switch {
+				case sty.k == "dyn":
+					con = gapDynConOf(want)
+				case sty.k == "anycol" && want.k == "struct":
+					con = "gap_col_" + want.pkg
+				}
+				if con == "" || !zok {
+					t.fail(st, "type assertion %s", t.src(r))
+					return pre
+				}
+				a := t.setVar(st, x.Tok, x.Lhs[0], "", want, false, c)
+				b := t.setVar(st, x.Tok, x.Lhs[1], "", gapK("bool"), false, c)
+				return append(pre, fmt.Sprintf("let '(%s, %s) := (match %s with %s y => (y, true) | _ => (%s, false) end) in", a, b, s, con, z))
+			case *ast.IndexExpr:
+				m, mty := t.expr(r.X, *c, &pre)
+				k, kty := t.expr(r.Index, *c, &pre)
+				if mty.k == "bad" || kty.k == "bad" {
+					return pre
+				}
+				if mty.k != "map" || kty.k != "string" {
+					t.fail(st, "two-value index expression on a %s", mty.name())
+					return pre
+				}
+				z, _ := mty.el.zero()
+				a := t.setVar(st, x.Tok, x.Lhs[0], "", mty.el, false, c)
+				b := t.setVar(st, x.Tok, x.Lhs[1], "", gapK("bool"), false, c)
+				return append(pre, fmt.Sprintf("let '(%s, %s) := gap_mget2 %s %s %s in", a, b, z, gapParen(m), gapParen(k)))
+			case *ast.CallExpr:
+				texts, tys := t.call(r, *c, &pre)
+				if len(texts) != 2 {
+					if len(tys) == 0 || tys[0].k != "bad" {
+						t.fail(st, "a call with %d results for two variables", len(texts))
+					}
+					return pre
+				}
+				a := t.setVar(st, x.Tok, x.Lhs[0], "", tys[0], false, c)
+				b := t.setVar(st, x.Tok, x.Lhs[1], "", tys[1], false, c)
+				return append(pre, fmt.Sprintf("let '(%s, %s) := (%s, %s) in", a, b, texts[0], texts[1]))
+			}
+			break
+		}
+		if len(x.Lhs) != 1 || len(x.Rhs) != 1 {
+			break
+		}
+		// s[i] = e, m[k] = e on something the function made
+		if ie, ok := x.Lhs[0].(*ast.IndexExpr); ok && x.Tok == token.ASSIGN {
+			id, ok := ie.X.(*ast.Ident)
+			if !ok {
+				t.fail(st, "store into %s", t.src(ie.X))
+				return pre
+			}
+			v, ok := c.lookup(id.Name)
+			if !ok || !v.own {
+				t.fail(st, "store into %s, which the function did not make itself", id.Name)
+				return pre
+			}
+			i, ity := t.expr(ie.Index, *c, &pre)
+			e, ety := t.expr(x.Rhs[0], *c, &pre)
+			if ity.k == "bad" || ety.k == "bad" {
+				return pre
+			}
+			switch {
+			case v.ty.k == "slice" && ity.isNum():
+				e = t.coerce(st, e, ety, v.ty.el)
+				return append(pre, fmt.Sprintf("do %s <- gap_update %s %s %s;", v.coq, v.coq, gapParen(i), gapParen(e)))
+			case v.ty.k == "map" && ity.k == "string":
+				e = t.coerce(st, e, ety, v.ty.el)
+				return append(pre, fmt.Sprintf("let %s := gap_mset %s %s %s in", v.coq, v.coq, gapParen(i), gapParen(e)))
+			}
+			t.fail(st, "store %s", t.src(x.Lhs[0]))
+			return pre
+		}
+		// X = append(X, e) / append(X, e...)
+		if ce, ok := t.isCallTo(x.Rhs[0], "", "append"); ok {
+			id, isId := x.Lhs[0].(*ast.Ident)
+			if !isId || x.Tok != token.ASSIGN || len(ce.Args) != 2 || gapRoot(ce.Args[0]) != id.Name {
+				t.fail(st, "append is translated only as X = append(X, e)")
+				return pre
+			}
+			if _, same := ce.Args[0].(*ast.Ident); !same {
+				t.fail(st, "append is translated only as X = append(X, e)")
+				return pre
+			}
+			v, ok := c.lookup(id.Name)
+			if !ok || !v.own || v.ty.k != "slice" {
+				t.fail(st, "append to %s, which the function did not make itself", id.Name)
+				return pre
+			}
+			e, ety := t.expr(ce.Args[1], *c, &pre)
+			if ety.k == "bad" {
+				return pre
+			}
+			if ce.Ellipsis != token.NoPos {
+				if !(ety.k == "slice" && ety.el.same(v.ty.el)) && !(ety.k == "string" && v.ty.el.k == "byte") {
+					t.fail(st, "append of a %s to a %s", ety.name(), v.ty.name())
+				}
+				return append(pre, fmt.Sprintf("let %s := (%s ++ %s) in", v.coq, v.coq, e))
+			}
+			e = t.coerce(st, e, ety, v.ty.el)
+			return append(pre, fmt.Sprintf("let %s := (%s ++ [%s]) in", v.coq, v.coq, e))
+		}
+		// r := qfstrings.ToUpper(&buf, s)
+		if ce, ok := t.isCallTo(x.Rhs[0], gapMod+"internal/strings", "ToUpper"); ok {
+			if len(ce.Args) == 2 {
+				if ue, ok := ce.Args[0].(*ast.UnaryExpr); ok && ue.Op == token.AND {
+					if id, ok := ue.X.(*ast.Ident); ok {
+						v, ok := c.lookup(id.Name)
+						s, sty := t.expr(ce.Args[1], *c, &pre)
+						if ok && v.own && v.ty.k == "slice" && v.ty.el.k == "byte" && sty.k == "string" {
+							r := t.tmp()
+							pre = append(pre, fmt.Sprintf("do (%s, %s) <- strings_ToUpper %s %s;", r, v.coq, v.coq, gapParen(s)))
+							name := t.setVar(st, x.Tok, x.Lhs[0], "", &gapT{k: "slice", el: gapK("byte")}, false, c)
+							return append(pre, fmt.Sprintf("let %s := %s in", name, r))
+						}
+					}
+				}
+			}
+			t.fail(st, "this call of qfstrings.ToUpper")
+			return pre
+		}
+		own := false
+		if _, ok := t.isCallTo(x.Rhs[0], "", "make"); ok {
+			own = true
+		}
+		e, ety := t.expr(x.Rhs[0], *c, &pre)
+		if ety.k == "bad" {
+			return pre
+		}
+		name := t.setVar(st, x.Tok, x.Lhs[0], e, ety, own, c)
+		if x.Tok == token.ASSIGN {
+			if id, ok := x.Lhs[0].(*ast.Ident); ok {
+				if v, ok := c.lookup(id.Name); ok && v.own && !own {
+					t.fail(st, "variable %s, which the function stores into, is given another array", id.Name)
+				}
+			}
+		}
+		return append(pre, fmt.Sprintf("let %s := %s in", name, e))
+	}
+	t.fail(st, "statement %s is outside the translation", t.src(st))
+	return pre
+}
+
+func gapJoin(lines []string, last string) string {
+	if len(lines) == 0 {
+		return last
+	}
+	return strings.Join(lines, "\n") + "\n" + last
+}
+
+func gapContainsReturn(n ast.Node) bool {
+	found := false
+	ast.Inspect(n, func(m ast.Node) bool {
+		if _, ok := m.(*ast.ReturnStmt); ok {
+			found = true
+		}
+		return !found
+	})
+	return found
+}
+
+func gapTerminates(list []ast.Stmt) bool {
+	if len(list) == 0 {
+		return false
+	}
+	switch x := list[len(list)-1].(type) {
+	case *ast.ReturnStmt:
+		return true
+	case *ast.BlockStmt:
+		return gapTerminates(x.List)
+	case *ast.IfStmt:
+		if x.Else == nil || !gapTerminates(x.Body.List) {
+			return false
+		}
+		switch e := x.Else.(type) {
+		case *ast.BlockStmt:
+			return gapTerminates(e.List)
+		case *ast.IfStmt:
+			return gapTerminates([]ast.Stmt{e})
+		}
+	case *ast.TypeSwitchStmt:
+		hasDefault := false
+		for _, cl := range x.Body.List {
+			cc := cl.(*ast.CaseClause)
+			if cc.List == nil {
+				hasDefault = true
+			}
+			if !gapTerminates(cc.Body) {
+				return false
+			}
+		}
+		return hasDefault
+	}
+	return false
+}
+
+func (t *gapTr) ret(x *ast.ReturnStmt, c gapCtx) string {
+	var pre []string
+	var vals []string
+	if len(x.Results) != len(t.f.results) {
+		t.fail(x, "return of %d values for %d results", len(x.Results), len(t.f.results))
+		return "Panic"
+	}
+	for i, r := range x.Results {
+		s, ty := t.expr(r, c, &pre)
+		vals = append(vals, t.coerce(r, s, ty, t.f.results[i]))
+	}
+	return gapJoin(pre, "Ok "+gapTuple(vals))
+}
+
+func (t *gapTr) unreachable(n ast.Node) func(gapCtx) string {
+	return func(gapCtx) string {
+		t.fail(n, "control can fall out of a block that must end in return")
+		return "Panic"
+	}
+}
+
+func (t *gapTr) stmts(list []ast.Stmt, c gapCtx, k func(gapCtx) string) string {
+	if len(list) == 0 {
+		return k(c)
+	}
+	rest := list[1:]
+	cont := func(c2 gapCtx) string { return t.stmts(rest, c2, k) }
+	switch x := list[0].(type) {
+	case *ast.ReturnStmt:
+		if len(rest) > 0 {
+			t.fail(x, "statements after return")
+		}
+		return t.ret(x, c)
+	case *ast.IfStmt:
+		return t.ifStmt(x, c, cont, len(rest) == 0)
+	case *ast.RangeStmt:
+		return t.rangeStmt(x, c, cont)
+	case *ast.TypeSwitchStmt:
+		return t.typeSwitch(x, c, cont)
+	case *ast.BlockStmt:
+		t.fail(x, "nested block")
+		return "Panic"
+	}
+	c2 := c
+	lines := t.simple(list[0], &c2)
+	return gapJoin(lines, cont(c2))
+}
+
+func (t *gapTr) ifStmt(x *ast.IfStmt, c gapCtx, cont func(gapCtx) string, last bool) string {
+	outer := c
+	var lines []string
+	if x.Init != nil {
+		_, declared := gapAssigned(x.Init)
+		for n := range declared {
+			if _, ok := c.lookup(n); ok {
+				t.fail(x, "the init statement of the if declares %s again", n)
+			}
+		}
+		lines = t.simple(x.Init, &c)
+	}
+	cond, cty := t.expr(x.Cond, c, &lines)
+	if cty.k != "bool" && cty.k != "bad" {
+		t.fail(x, "condition of type %s", cty.name())
+	}
+	var elseList []ast.Stmt
+	hasElse := false
+	switch e := x.Else.(type) {
+	case nil:
+	case *ast.BlockStmt:
+		elseList, hasElse = e.List, true
+	case *ast.IfStmt:
+		elseList, hasElse = []ast.Stmt{e}, true
+	}
+	thenT := gapTerminates(x.Body.List)
+	switch {
+	case thenT && !hasElse:
+		th := t.stmts(x.Body.List, c, t.unreachable(x))
+		return gapJoin(lines, fmt.Sprintf("if %s then\n%s\nelse\n%s", cond, gapIndent(th), gapIndent(cont(outer))))
+	case thenT && hasElse && gapTerminates(elseList):
+		th := t.stmts(x.Body.List, c, t.unreachable(x))
+		el := t.stmts(elseList, c, t.unreachable(x))
+		if !last {
+			t.fail(x, "statements after an if whose branches all return")
+		}
+		return gapJoin(lines, fmt.Sprintf("if %s then\n%s\nelse\n%s", cond, gapIndent(th), gapIndent(el)))
+	case !gapContainsReturn(x.Body) && (x.Else == nil || !gapContainsReturn(x.Else)):
+		nodes := []ast.Node{x.Body}
+		if x.Else != nil {
+			nodes = append(nodes, x.Else)
+		}
+		vars := t.stateVars(x, outer, nodes...)
+		out := func(gapCtx) string { return "Ok " + gapTuple(gapVarNames(vars)) }
+		th := t.stmts(x.Body.List, c, out)
+		el := t.stmts(elseList, c, out)
+		return gapJoin(lines, fmt.Sprintf("do %s <- (if %s then\n%s\nelse\n%s);\n%s", gapPat(gapVarNames(vars)), cond, gapIndent(th), gapIndent(el), cont(outer)))
+	}
+	t.fail(x, "this shape of if (a return in one branch only, with statements after the other)")
+	return "Panic"
+}
+
+func (t *gapTr) typeSwitch(x *ast.TypeSwitchStmt, c gapCtx, cont func(gapCtx) string) string {
+	if x.Init != nil {
+		t.fail(x, "type switch with init statement")
+		return "Panic"
+	}
+	bindName := ""
+	var ta *ast.TypeAssertExpr
+	switch a := x.Assign.(type) {
+	case *ast.AssignStmt:
+		if len(a.Lhs) == 1 && len(a.Rhs) == 1 && a.Tok == token.DEFINE {
+			if id, ok := a.Lhs[0].(*ast.Ident); ok {
+				bindName = id.Name
+			}
+			ta, _ = a.Rhs[0].(*ast.TypeAssertExpr)
+		}
+	case *ast.ExprStmt:
+		ta, _ = a.X.(*ast.TypeAssertExpr)
+	}
+	if ta == nil {
+		t.fail(x, "type switch header")
+		return "Panic"
+	}
+	id, ok := ta.X.(*ast.Ident)
+	if !ok {
+		t.fail(x, "type switch on %s", t.src(ta.X))
+		return "Panic"
+	}
+	sv, ok := c.lookup(id.Name)
+	if !ok || sv.ty.k != "dyn" {
+		t.fail(x, "type switch on %s, which is not an interface{} variable", id.Name)
+		return "Panic"
+	}
+	var b strings.Builder
+	fmt.Fprintf(&b, "match %s with\n", sv.coq)
+	hasDefault := false
+	var defaultText string
+	seen := map[string]bool{}
+	for _, cl := range x.Body.List {
+		cc := cl.(*ast.CaseClause)
+		if !gapTerminates(cc.Body) {
+			t.fail(cc, "a clause of the type switch does not end in return")
+			continue
+		}
+		if cc.List == nil {
+			hasDefault = true
+			c2 := c
+			line := ""
+			if bindName != "" {
+				line = fmt.Sprintf("let %s := %s in\n", t.declare(&c2, bindName, sv.ty, false), sv.coq)
+			}
+			defaultText = line + t.stmts(cc.Body, c2, t.unreachable(cc))
+			continue
+		}
+		if len(cc.List) != 1 {
+			t.fail(cc, "a clause with several types")
+			continue
+		}
+		ty := t.resolve(cc.List[0])
+		if ty.k == "bad" {
+			continue
+		}
+		con := gapDynConOf(ty)
+		if seen[con] {
+			t.fail(cc, "type %s twice", ty.name())
+		}
+		seen[con] = true
+		c2 := c
+		name := "_"
+		if bindName != "" {
+			name = t.declare(&c2, bindName, ty, false)
+		}
+		body := t.stmts(cc.Body, c2, t.unreachable(cc))
+		fmt.Fprintf(&b, "| %s %s =>\n%s\n", con, name, gapIndent(body))
+	}
+	if hasDefault {
+		fmt.Fprintf(&b, "| _ =>\n%s\n", gapIndent(defaultText))
+	} else {
+		fmt.Fprintf(&b, "| _ =>\n%s\n", gapIndent(cont(c)))
+	}
+	b.WriteString("end")
+	return b.String()
+}
+
+func (t *gapTr) rangeStmt(x *ast.RangeStmt, c gapCtx, cont func(gapCtx) string) string {
+	if x.Tok != token.DEFINE && !(x.Key == nil && x.Value == nil) {
+		t.fail(x, "range assigning to existing variables")
+		return "Panic"
+	}
+	if gapContainsReturn(x.Body) {
+		t.fail(x, "return inside a loop")
+		return "Panic"
+	}
+	bad := false
+	ast.Inspect(x.Body, func(m ast.Node) bool {
+		switch m.(type) {
+		case *ast.BranchStmt, *ast.DeferStmt, *ast.GoStmt, *ast.FuncLit, *ast.LabeledStmt:
+			bad = true
+		}
+		return true
+	})
+	if bad {
+		t.fail(x, "break / continue / goto / defer / closure inside a loop")
+		return "Panic"
+	}
+	var pre []string
+	xs, xty := t.expr(x.X, c, &pre)
+	if xty.k == "bad" {
+		return "Panic"
+	}
+	if xty.k != "slice" || len(pre) != 0 {
+		t.fail(x, "range over %s", t.src(x.X))
+		return "Panic"
+	}
+	keyName, valName := "_", "_"
+	if id, ok := x.Key.(*ast.Ident); ok {
+		keyName = id.Name
+	} else if x.Key != nil {
+		t.fail(x, "range key %s", t.src(x.Key))
+	}
+	if id, ok := x.Value.(*ast.Ident); ok {
+		valName = id.Name
+	} else if x.Value != nil {
+		t.fail(x, "range value %s", t.src(x.Value))
+	}
+	state := t.stateVars(x, c, x.Body)
+	root := gapRoot(x.X)
+	for _, v := range state {
+		if v.name == root {
+			t.fail(x, "the loop stores into the slice it ranges over")
+		}
+	}
+	inner := c
+	keyCoq, valCoq := "_", "_"
+	if keyName != "_" {
+		keyCoq = t.declare(&inner, keyName, gapK("int"), false)
+	}
+	if valName != "_" {
+		valCoq = t.declare(&inner, valName, xty.el, false)
+	}
+	t.nloop++
+	loopName := fmt.Sprintf("%s_loop%d", t.f.coq, t.nloop)
+	stNames := gapVarNames(state)
+	recur := "loop l'"
+	if keyName != "_" {
+		recur += " (" + keyCoq + " + 1)"
+	}
+	for _, n := range stNames {
+		recur += " " + n
+	}
+	body := t.stmts(x.Body.List, inner, func(gapCtx) string { return recur })
+	// the free variables of the body
+	var params []gapVar
+	seen := map[string]bool{}
+	for i := len(c.vars) - 1; i >= 0; i-- {
+		v := c.vars[i]
+		if seen[v.name] {
+			continue
+		}
+		seen[v.name] = true
+		isState := false
+		for _, s := range state {
+			if s.name == v.name {
+				isState = true
+			}
+		}
+		if !isState && gapMentions(body, v.coq) {
+			params = append([]gapVar{v}, params...)
+		}
+	}
+	stT := gapTypeTuple(gapVarTypes(state))
+	var b strings.Builder
+	fmt.Fprintf(&b, "Definition %s", loopName)
+	for _, p := range params {
+		fmt.Fprintf(&b, " (%s : %s)", p.coq, p.ty.coq())
+	}
+	fmt.Fprintf(&b, " : %s", xty.coq())
+	if keyName != "_" {
+		b.WriteString(" -> Z")
+	}
+	for _, s := range state {
+		fmt.Fprintf(&b, " -> %s", s.ty.coq())
+	}
+	fmt.Fprintf(&b, " -> outcome %s :=\n  fix loop (l : %s)", stT, xty.coq())
+	if keyName != "_" {
+		fmt.Fprintf(&b, " (%s : Z)", keyCoq)
+	}
+	for _, s := range state {
+		fmt.Fprintf(&b, " (%s : %s)", s.coq, s.ty.coq())
+	}
+	fmt.Fprintf(&b, " {struct l} : outcome %s :=\n    match l with\n    | [] => Ok %s\n    | %s :: l' =>\n%s\n    end.\n",
+		stT, gapTuple(stNames), valCoq, gapIndent(gapIndent(gapIndent(body))))
+	t.loops = append(t.loops, b.String())
+	call := loopName
+	for _, p := range params {
+		call += " " + p.coq
+	}
+	call += " " + gapParen(xs)
+	if keyName != "_" {
+		call += " 0"
+	}
+	for _, n := range stNames {
+		call += " " + n
+	}
+	return fmt.Sprintf("do %s <- %s;\n%s", gapPat(stNames), call, cont(c))
+}
+
+// ------------------------------------------------------------------ functions
+
+func gapCoqName(pkg, fn string) string { return "gap_" + pkg + "_" + strings.ReplaceAll(fn, ".", "_") }
+
+func gapSource(p *pkgInfo, fd *ast.FuncDecl) string {
+	cp := *fd
+	cp.Doc = nil
+	return gapCommentSafe(gapSrc(p.fset, &cp))
+}
+
+func (t *gapTr) signature() bool {
+	fd := t.f.fd
+	if fd.Recv != nil {
+		if len(fd.Recv.List) != 1 || len(fd.Recv.List[0].Names) != 1 {
+			t.fail(fd, "receiver")
+			return false
+		}
+		if _, isPtr := fd.Recv.List[0].Type.(*ast.StarExpr); isPtr {
+			t.fail(fd, "pointer receiver")
+			return false
+		}
+		ty := t.resolve(fd.Recv.List[0].Type)
+		n := fd.Recv.List[0].Names[0].Name
+		t.f.recv = &gapVar{name: n, coq: "v_" + n, ty: ty}
+	}
+	for _, fl := range fd.Type.Params.List {
+		ty := t.resolve(fl.Type)
+		if len(fl.Names) == 0 {
+			t.fail(fd, "unnamed parameter")
+			return false
+		}
+		for _, n := range fl.Names {
+			coq := "v_" + n.Name
+			if n.Name == "_" {
+				coq = "_"
+			}
+			t.f.params = append(t.f.params, gapVar{name: n.Name, coq: coq, ty: ty})
+		}
+	}
+	if fd.Type.Results != nil {
+		for _, fl := range fd.Type.Results.List {
+			if len(fl.Names) != 0 {
+				t.fail(fd, "named results")
+				return false
+			}
+			t.f.results = append(t.f.results, t.resolve(fl.Type))
+		}
+	}
+	return !t.bad
+}
+
+func (t *gapTr) translate() {
+	f := t.f
+	c := gapCtx{}
+	var sig []string
+	if f.recv != nil {
+		c = c.push(*f.recv)
+		sig = append(sig, fmt.Sprintf("(%s : %s)", f.recv.coq, f.recv.ty.coq()))
+	}
+	for _, v := range f.params {
+		sig = append(sig, fmt.Sprintf("(%s : %s)", v.coq, v.ty.coq()))
+		if v.name != "_" {
+			c = c.push(v)
+		}
+	}
+	body := t.stmts(f.fd.Body.List, c, func(gapCtx) string {
+		t.fail(f.fd, "the function can fall off its end")
+		return "Panic"
+	})
+	var rs []string
+	for _, r := range f.results {
+		rs = append(rs, r.coq())
+	}
+	var b strings.Builder
+	fmt.Fprintf(&b, "(* internal/%s\n%s *)\n", f.pkg, gapSource(t.p, f.fd))
+	for _, l := range t.loops {
+		b.WriteString(l)
+	}
+	fmt.Fprintf(&b, "Definition %s %s : outcome %s :=\n%s.\n", f.coq, strings.Join(sig, " "), gapTypeTuple(rs), gapIndent(body))
+	f.text = b.String()
+	f.ok = !t.bad
+}
+
+// var X = map[string]func(..) ..{"key": fn, ..}
+func gapTranslateTable(p *pkgInfo, pkg, name string) (string, bool) {
+	tr := &gapTr{pkg: pkg, p: p, f: &gapFn{name: "var " + name}}
+	e, ok := p.vars[name]
+	if !ok {
+		problem("column apply translation: table %s not found in internal/%s", name, pkg)
+		return "", false
+	}
+	cl, ok := e.(*ast.CompositeLit)
+	if !ok {
+		tr.fail(e, "the table is not a map literal")
+		return "", false
+	}
+	ty := tr.resolve(cl.Type)
+	if ty.k != "map" || ty.el.k != "func" {
+		if ty.k != "bad" {
+			tr.fail(e, "the table is not a map from names to functions")
+		}
+		return "", false
+	}
+	var entries []string
+	for _, el := range cl.Elts {
+		kv, ok := el.(*ast.KeyValueExpr)
+		if !ok {
+			tr.fail(el, "table entry")
+			continue
+		}
+		key, ok := stringOf(p, kv.Key)
+		id, ok2 := kv.Value.(*ast.Ident)
+		if !ok || !ok2 {
+			tr.fail(el, "table entry %s", gapSrc(p.fset, el))
+			continue
+		}
+		g, ok := gapFuncs[pkg+"."+id.Name]
+		if !ok || (!g.ok && g.text == "") || g.recv != nil {
+			tr.fail(el, "table entry %s is not a translated function", id.Name)
+			continue
+		}
+		gt := &gapT{k: "func", rs: g.results}
+		for _, q := range g.params {
+			gt.ps = append(gt.ps, q.ty)
+		}
+		if !gt.same(ty.el) {
+			tr.fail(el, "table entry %s has another signature", id.Name)
+			continue
+		}
+		entries = append(entries, fmt.Sprintf("(%s, %s)", coqBytes(key), g.coq))
+	}
+	coq := "gap_" + pkg + "_" + name
+	gapTables[pkg+"."+name] = &gapTable{coq: coq, ty: ty}
+	text := fmt.Sprintf("(* internal/%s\nvar %s = %s *)\nDefinition %s : %s :=\n  [%s].\n", pkg, name,
+		gapCommentSafe(gapSrc(p.fset, cl)), coq, ty.coq(), strings.Join(entries, "; "))
+	return text, !tr.bad
+}
+
+func genColApply() string {
+	gapFuncs = map[string]*gapFn{}
+	gapTables = map[string]*gapTable{}
+	gapStructs = map[string]*gapStruct{}
+	gapDyns = nil
+	gapFnNameUsed = map[string]bool{}
+	golden := ""
+	if fl := flag.Lookup("golden"); fl != nil && fl.Value.String() != "" {
+		if gb, err := os.ReadFile(filepath.Join(fl.Value.String(), "GenColApply.v")); err == nil {
+			golden = string(gb)
+		}
+	}
+	var head, body strings.Builder
+	block := func(b *strings.Builder, name, text string, ok bool) bool {
+		if !ok {
+			old, found := gapGoldenBlock(golden, name)
+			if !found {
+				return false
+			}
+			text = "(* FALLBACK " + name + ": not derivable from the current source; text of the last validated tree *)\n" + old
+		}
+		fmt.Fprintf(b, "(* BEGIN %s *)\n%s(* END %s *)\n\n", name, text, name)
+		return true
+	}
+	head.WriteString(gapPreamble1)
+	for _, pkg := range gapPkgs {
+		p := loadPkg("internal/" + pkg)
+		s, src := gapLoadStruct(p, pkg)
+		gapStructs[pkg] = s
+		block(&head, "gap_"+pkg+"_Column", s.record(src), s.ok)
+	}
+	// column.Column
+	var ac strings.Builder
+	ac.WriteString("(* column.Column: the nil interface, a column of one of the translated packages, any other implementation *)\n")
+	ac.WriteString("Inductive gap_anycol (F64 OTHERC : Type) : Type :=\n| gap_col_nil\n")
+	for _, pkg := range gapPkgs {
+		fmt.Fprintf(&ac, "| gap_col_%s (c : %s)\n", pkg, (&gapT{k: "struct", pkg: pkg}).coq())
+	}
+	ac.WriteString("| gap_col_other (x : OTHERC).\nArguments gap_col_nil {F64 OTHERC}.\n")
+	for _, pkg := range gapPkgs {
+		fmt.Fprintf(&ac, "Arguments gap_col_%s {F64 OTHERC}.\n", pkg)
+	}
+	ac.WriteString("Arguments gap_col_other {F64 OTHERC}.\n")
+	ac.WriteString("(* x.DataType() for error texts: a method call on the nil interface panics *)\n")
+	ac.WriteString("Definition gap_col_DataType {F64 OTHERC : Type} (c : gap_anycol F64 OTHERC) : outcome unit :=\n  match c with gap_col_nil => Panic | _ => Ok tt end.\n")
+	block(&head, "gap_anycol", ac.String(), true)
+
+	for _, pkg := range gapPkgs {
+		p := loadPkg("internal/" + pkg)
+		for _, fn := range gapSpecs[pkg] {
+			if strings.HasPrefix(fn, "var ") {
+				name := strings.TrimPrefix(fn, "var ")
+				text, ok := gapTranslateTable(p, pkg, name)
+				if !block(&body, "gap_"+pkg+"_"+name, text, ok) {
+					delete(gapTables, pkg+"."+name)
+				}
+				continue
+			}
+			f := &gapFn{pkg: pkg, name: fn, coq: gapCoqName(pkg, fn)}
+			gapFuncs[pkg+"."+fn] = f
+			fd, ok := p.funcs[fn]
+			if !ok || fd.Body == nil {
+				problem("column apply translation: function %s not found in internal/%s", fn, pkg)
+			} else {
+				f.fd = fd
+				t := &gapTr{pkg: pkg, p: p, f: f}
+				if t.signature() {
+					t.translate()
+				}
+			}
+			text := f.text
+			if !f.ok {
+				f.text = ""
+			}
+			if block(&body, f.coq, text, f.ok) && !f.ok {
+				f.text = "fallback"
+			}
+		}
+		if gapFnNameUsed[pkg] {
+			fd, ok := p.funcs["Column.fnName"]
+			if !ok || fd.Body == nil || gapSrc(p.fset, fd.Body) != gapFnNameBody {
+				problem("column apply translation: internal/%s Column.fnName is not the text the vocabulary stands for", pkg)
+			}
+		}
+	}
+	for _, pth := range []struct{ dir, fn string }{{"internal/strings", "ToUpper"}, {"internal/strings", "UnsafeBytesToString"}, {"internal/strings", "NewPointer"}, {"internal/strings", "Pointer.IsNull"}, {"internal/strings", "Pointer.Offset"}, {"internal/strings", "Pointer.Len"}, {"internal/ecolumn", "enumVal.isNull"}} {
+		if fd, ok := loadPkg(pth.dir).funcs[pth.fn]; !ok || fd.Body == nil {
+			problem("column apply translation: %s not found in %s", pth.fn, pth.dir)
+		}
+	}
+	// interface{}
+	var dy strings.Builder
+	dy.WriteString("(* interface{}: a value with its dynamic type; one constructor per type that a type switch or a type assertion of\n   the translated functions names or that a translated function answers as interface{}; gap_dyn_nil the nil interface,\n   gap_dyn_other anything else *)\n")
+	dy.WriteString("Inductive gap_dyn (F64 OTHER : Type) : Type :=\n| gap_dyn_nil\n")
+	for _, d := range gapDyns {
+		fmt.Fprintf(&dy, "| %s (x : %s)\n", d.con, d.ty.coq())
+	}
+	dy.WriteString("| gap_dyn_other (x : OTHER).\nArguments gap_dyn_nil {F64 OTHER}.\n")
+	for _, d := range gapDyns {
+		fmt.Fprintf(&dy, "Arguments %s {F64 OTHER}.\n", d.con)
+	}
+	dy.WriteString("Arguments gap_dyn_other {F64 OTHER}.\n")
+	block(&head, "gap_dyn", dy.String(), true)
+	return head.String() + gapPreamble2 + body.String() + "End GenColApply.\n"
+}
